@@ -3,6 +3,8 @@ C19 — all query entry points and anchors agree.
 -/
 import Ajson.Model.Path
 import Ajson.Proofs.Anchor
+import Ajson.Proofs.Roots
+import Ajson.Proofs.CloneSound
 
 namespace Ajson.Props.C19
 open Ajson Ajson.Heap
@@ -51,6 +53,24 @@ theorem C19_dollar_same_from_every_node (env : Env) (fuel : Nat) (h : Heap) (s1 
     (hroot : h.root s1 = h.root s2) :
     h.applyJSONPath env fuel (some s1) ([36] :: rest) = h.applyJSONPath env fuel (some s2) ([36] :: rest) :=
   Ajson.Proofs.dollar_same_from_every_node env fuel h s1 s2 rest hroot
+
+/-- on a sound acyclic heap the hypothesis holds between any two nodes of one tree: `root()` ends at a node without a parent, a node
+and its parent have the same root (the fuel of `root()` suffices: a parent chain has fewer links than there are nodes), so a `$` path
+gives the same result from a node, from each of its ancestors, from its root, and from any node with a common ancestor -/
+theorem C19_dollar_same_within_a_tree {h : Heap} (hs : Ajson.Proofs.Struct h) (ha : Ajson.Proofs.Acyc h) (env : Env) (fuel : Nat) (n m : Nat)
+    (hn : n < h.size) (hm : m < h.size) (a : Id) (han : Ajson.Proofs.Anc h a n) (ham : Ajson.Proofs.Anc h a m) (rest : List Bytes) :
+    h.applyJSONPath env fuel (some n) ([36] :: rest) = h.applyJSONPath env fuel (some m) ([36] :: rest) ∧
+    h.applyJSONPath env fuel (some n) ([36] :: rest) = h.applyJSONPath env fuel (some (h.root n)) ([36] :: rest) :=
+  ⟨Ajson.Proofs.dollar_same_tree hs.pir ha env fuel n m hn hm a han ham rest, Ajson.Proofs.dollar_from_node_and_root hs.pir ha env fuel n hn rest⟩
+
+/-- **before and after edits**: after ANY history of edit requests and clones on a sound acyclic heap (every parsed document is one)
+a `$` path still gives the same result from every node and from that node's root -/
+theorem C19_dollar_after_any_history (ss : List Ajson.Proofs.Step) (h : Heap) (hs : Ajson.Proofs.Struct h) (ha : Ajson.Proofs.Acyc h)
+    (hv : Ajson.Proofs.ValidSteps h ss) (env : Env) (fuel : Nat) (n : Nat) (hn : n < (ss.foldl Ajson.Proofs.Step.run h).size) (rest : List Bytes) :
+    (ss.foldl Ajson.Proofs.Step.run h).applyJSONPath env fuel (some n) ([36] :: rest) =
+      (ss.foldl Ajson.Proofs.Step.run h).applyJSONPath env fuel (some ((ss.foldl Ajson.Proofs.Step.run h).root n)) ([36] :: rest) := by
+  obtain ⟨s1, a1, _⟩ := Ajson.Proofs.steps_sound ss h hs ha hv
+  exact Ajson.Proofs.dollar_from_node_and_root s1.pir a1 env fuel n hn rest
 
 /-- … and a path whose first command is neither `$` nor `@` does not depend on the start node at all -/
 theorem C19_anchorless_same (env : Env) (fuel : Nat) (h : Heap) (s1 s2 : Id) (c : Bytes) (rest : List Bytes) (h36 : c ≠ [36]) (h64 : c ≠ [64]) :
